@@ -2,7 +2,7 @@ HOOK_COMMITS = ['c1c434b', '878b954']
 NOTES = ('All checks are driven by bin/check <ID> --tier quick|thorough; exit 0/1/2 as described in DESIGN.md 2.4. '
          'known_findings.json lists recorded defects and fixed ones.')
 _pending = 'check not built yet in this revision (see DESIGN.md); will be claimed when its specification and harness exist'
-for _p in ['C02','C03','C04','C05','C06','C07','C08','C10','C11','C13','C18','C19']:
+for _p in ['C02','C03','C04','C05','C06','C07','C08','C10','C11','C13','C19']:
     NA[_p] = _pending
 NA['C01'] = ('power balance needs numerical integration of the reported pattern over the sphere and a 1.5 % physical '
              'tolerance of the true kernel: numeric accuracy with no discrete content, nothing a TLA+ specification can decide (DESIGN.md section 5)')
@@ -86,3 +86,17 @@ check('C15', 'model_checking',
       'seeded choices of the concretiser, not enumerated by TLC. One recorded defect (load numbering when loads are attached out of kind order) '
       'is a known finding; TLC produces its counterexample on the variant LoadsInKindOrder = FALSE.',
       'TLC model checking of OptionFile.tla + write/read-back replay through main()', 'DESIGN.md 4 C15')
+
+check('C18', 'model_checking',
+      'spec/BasicDialogue.tla is the prompt automaton of BASIC MININEC-3 (device, frequency, environment and media sub-dialogue, wires, '
+      'sources, loads in impedance or S-parameter form with order+1 coefficient lines, menu commands C / P / N with their sub-dialogues, Q). '
+      'Every generated answer file is validated as a trace in one batched TLC run: each line must answer the prompt that is due (arity, lexical '
+      'class, counts consistent with earlier answers) and nothing may be left over; TLC prints the prompt sequence of accepted files. With it '
+      'the harness decodes the answers and compares frequency, environment, media, every (emulated) wire, sources (pulse, magnitude, phase in '
+      'degrees) and loads (pulse, value, uH/uF scaling for version 9) with the real model; wire ends the program joined must be printed '
+      'identically; a model rebuilt from the decoded answers must have the same pulse positions and feed impedance (5e-4; 2 % for taper / arc / '
+      'helix emulation). The 48 stored .mini files must be accepted first.',
+      'Trusted base: the dialogue itself is reconstructed from the prompt comments in the code and the stored .mini files (the BASIC program is '
+      'not available). Models come from a seeded generator over 12 geometry families, 6 media forms, 8 complex voltages, impedance / Laplace / '
+      'distributed loads, versions 9/12/13 and all menu sub-dialogues.',
+      'batched TLC trace validation against BasicDialogue.tla + decode/compare/rebuild', 'DESIGN.md 4 C18, 3.6')
